@@ -13,6 +13,7 @@ import (
 	"sync"
 	"time"
 
+	"verifharness/ka"
 	"verifharness/vk"
 )
 
@@ -292,6 +293,7 @@ func Run(run *vk.Run, prop string) {
 	if prop == "C15" {
 		sweepC15(run)
 		sweepC15CLI(run)
+		ka.CheckEndorseModesLeaveAuthorityAlone(run)
 	}
 	if run.Failed() {
 		// still validate traces for the evidence, but predicates already decided
